@@ -276,7 +276,7 @@ def run_family(prop, tier, plan, free_plan, assumptions, mc_extra=(), post=None,
     return res.finish()
 
 
-IMPL = {"tumbling": "TraceTumblingImpl", "sliding": "TraceSlidingImpl"}
+IMPL = {"tumbling": "TraceTumblingImpl", "sliding": "TraceSlidingImpl", "session": "TraceSessionImpl"}
 
 
 def impl_binding(res, plan, scen, tr_path):
@@ -321,6 +321,8 @@ def impl_binding(res, plan, scen, tr_path):
         consts = "Size = %d MOO = %d AL = %d MaxTs = 99 MaxEv = 12 ChanCap = 100 Reanchor = TRUE Emit = FALSE Dev = {}" % (size, moo, al)
         if kind == "sliding":
             consts += " Slide = %d LateAll = TRUE RegisterEarly = TRUE" % slide
+        if kind == "session":
+            consts = "T = %d MOO = %d AL = %d MaxTs = 99 MaxEv = 12 Keys = {\"a\",\"b\"} ChanCap = 100 LateAnyKey = FALSE KeepOlder = TRUE OnlyLate = FALSE DevMerge = TRUE DevStart = TRUE Emit = FALSE Dev = {}" % (size, moo, al)
         cfg = "SPECIFICATION Spec0\nCONSTANTS %s\nPOSTCONDITION AllConsumed\nCHECK_DEADLOCK FALSE\n" % consts
         path = os.path.join(vlib.scratch(), "impl_%s_%d_%d_%d_%d.ndjson" % k)
         if os.path.getsize(path) == 0:
